@@ -684,7 +684,10 @@ class Collector(object):
                   'sorted(key=%s) keeps ties in the incoming order' % norm(key[0], 30)], depth + 1)
           return 'ok', 'consumed by %s()' % t
         if t in ('list', 'tuple', 'enumerate', 'zip', 'map', 'iter', 'next',
-                 'reversed', 'filter', 'deque', 'dumps', 'str', 'repr'):
+                 'reversed', 'filter', 'deque', 'dumps', 'str', 'repr',
+                 # itertools: the order of the result is the order of the input
+                 'chain', 'from_iterable', 'islice', 'takewhile', 'dropwhile',
+                 'accumulate', 'starmap', 'zip_longest'):
           return self._flow(fi, p, 'seq', chain, depth + 1)
         if t in ('dict', 'OrderedDict'):
           return self._flow(fi, p, 'dict', chain, depth + 1)
@@ -976,7 +979,22 @@ class Collector(object):
                        ast.Import, ast.ImportFrom, ast.Delete)):
       return
     if isinstance(st, ast.Return):
-      if not _const_like(st.value) and not self._in_diag(self.par(fi), st.value):
+      # `for a in S: if p(a): return X` with X independent of the element is an
+      # existential test (any(..)): the same X whichever element matched first
+      mentions = set()
+      if st.value is not None:
+        for n_ in ast.walk(st.value):
+          if isinstance(n_, ast.Name):
+            mentions.add(n_.id)
+        # names bound by comprehensions inside the returned expression are its own
+        for n_ in ast.walk(st.value):
+          if isinstance(n_, ast.comprehension):
+            for t_ in ast.walk(n_.target):
+              if isinstance(t_, ast.Name):
+                mentions.discard(t_.id)
+      independent = not (mentions & set(loopvars))
+      if not _const_like(st.value) and not independent and \
+          not self._in_diag(self.par(fi), st.value):
         leaks.append((st, 'returns a value chosen by iteration order (first match)'))
       return
     if isinstance(st, (ast.Assign, ast.AnnAssign)):
